@@ -142,8 +142,11 @@ type KDC struct {
 	seenNonces        map[int64]bool
 	rnd               *rand.Rand
 	AdvertiseETI2     bool // include ETYPE-INFO2 in AS-REP padata for password principals
-	EncTag25ForTGS    bool // benign variation: seal the TGS enc-part with application tag 25
-	EncTag26ForAS     bool // benign variation: seal the AS enc-part with application tag 26
+	// PAHints, when set, builds the key-derivation hints of the PREAUTH_REQUIRED e-data from the client's real entry
+	// (default: one ETYPE-INFO2 element); used to present the three hint kinds in every order with decoys
+	PAHints        func(real krbmsg.ETypeInfo2Entry) []krbmsg.PAData
+	EncTag25ForTGS bool // benign variation: seal the TGS enc-part with application tag 25
+	EncTag26ForAS  bool // benign variation: seal the AS enc-part with application tag 26
 }
 
 // New creates an empty KDC model.
@@ -399,7 +402,11 @@ func (k *KDC) handleAS(req *krbmsg.KDCReq) []byte {
 		ck = pk
 	}
 	if k.RequirePA && !preauth {
-		md := krbmsg.EncodeMethodData([]krbmsg.PAData{{Type: 19, Value: eti2()}, {Type: 2, Value: []byte{}}})
+		hints := []krbmsg.PAData{{Type: 19, Value: eti2()}}
+		if k.PAHints != nil {
+			hints = k.PAHints(krbmsg.ETypeInfo2Entry{EType: ck.Etype, Salt: ck.Salt, Params: ck.Params})
+		}
+		md := krbmsg.EncodeMethodData(append(hints, krbmsg.PAData{Type: 2, Value: []byte{}}))
 		return k.errReply(25, req, md)
 	}
 	// the requested server: the TGS of this realm or a service (e.g. kadmin/changepw)
